@@ -250,6 +250,23 @@ def writer_harness(I: Interp) -> None:
         I.await_v(I.call_v(I.getattr_v(h, "_executor_func"), [], {}))
     except PyExc as e:
         I.fail("X-writer-task-ends-quietly-when-cancelled", e.exc.cls.__name__)
+    # precondition of the trusted contract "Queue.put never suspends" that ECU._request's finally
+    # block relies on (a put that can suspend can be cancelled, losing the row of an exchange that
+    # has already happened): the execute queue is constructed unbounded
+    import ast
+    import inspect
+    import textwrap
+    n_q = 0
+    for name, fn in vars(H.DBHandler).items():
+        if not inspect.isfunction(fn):
+            continue
+        for n in ast.walk(ast.parse(textwrap.dedent(inspect.getsource(fn)))):
+            if isinstance(n, ast.Call) and ast.unparse(n.func) in ("asyncio.Queue", "Queue"):
+                n_q += 1
+                bounded = bool(n.args) or any(k.arg == "maxsize" for k in n.keywords)
+                I.prove(f"Q-execute-queue-is-unbounded(put-never-suspends):{name}",
+                        z3.BoolVal(not bounded), ast.unparse(n))
+    I.prove("Q-queue-construction-found", z3.BoolVal(n_q >= 1))
 
 
 # --------------------------------------------------------------------------- ECU._request
